@@ -16,6 +16,9 @@ Definition name_entry (p : path) (d : decl) : list N :=
   [1] ++ tok_path (p ++ [d_seg d]) ++ [aml_pOpName] ++ const_tokens (d_op d) (const_val (d_op d) (d_v d)).
 Definition blk_entry (p : path) (bk : bkind) (l : fxs) : list N :=
   [1] ++ tok_path p ++ [bk_op bk] ++ flat_map (fun '(w, v) => tok_const (fw_op w) v) l.
+Definition cst_tokens (d : decl) : list N := const_tokens (d_op d) (const_val (d_op d) (d_v d)).
+Definition leaf_entry (p : path) (lk : lkind) (l : fxs) (ta : list decl) : list N :=
+  [1] ++ tok_path p ++ [lk_op lk] ++ flat_map (fun '(w, v) => tok_const (fw_op w) v) l ++ flat_map cst_tokens ta.
 Definition dev_entry (p : path) : list N := blk_entry p BDev [].
 Definition meth_entry (p : path) (fl : N) : list N := blk_entry p BMeth [(W1, fl)].
 
@@ -24,6 +27,7 @@ Fixpoint ventry (p : path) (it : item) : list (list N) :=
   match it with
   | IName d => [name_entry p d]
   | IBlk bk _ seg fa body => flat_map (ventry (p ++ [seg])) body ++ [blk_entry (p ++ [seg]) bk (bfx bk fa)]
+  | ILeaf lk seg fa ta => [leaf_entry (p ++ [seg]) lk (lfx lk fa) ta]
   end.
 Definition ventries (p : path) (l : list item) : list (list N) := flat_map (ventry p) l.
 
@@ -32,16 +36,18 @@ Fixpoint sentry (p : path) (it : item) : list (list N) :=
   match it with
   | IName d => [name_entry p d]
   | IBlk bk _ seg fa body => blk_entry (p ++ [seg]) bk (bfx bk fa) :: flat_map (sentry (p ++ [seg])) body
+  | ILeaf lk seg fa ta => [leaf_entry (p ++ [seg]) lk (lfx lk fa) ta]
   end.
 Definition sentries (p : path) (l : list item) : list (list N) := flat_map (sentry p) l.
 
 Lemma ventries_perm : forall l p, Permutation (ventries p l) (sentries p l).
 Proof.
-  induction l as [|d rest IH|bk k seg fa body rest IHb IH] using items_ind; intros p; [constructor| |].
+  induction l as [|d rest IH|bk k seg fa body rest IHb IH|lk seg fa ta rest IH] using items_ind; intros p; [constructor| | |].
   - cbn [ventries sentries flat_map ventry sentry]. apply Permutation_app_head. apply IH.
   - cbn [ventries sentries flat_map ventry sentry]. apply Permutation_app; [|apply IH].
     fold (ventries (p ++ [seg]) body). fold (sentries (p ++ [seg]) body).
     eapply Permutation_trans; [apply Permutation_app_comm|]. cbn [app]. constructor. apply IHb.
+  - cbn [ventries sentries flat_map ventry sentry]. apply Permutation_app_head. apply IH.
 Qed.
 
 (** ---- the arguments of a named object, one by one ---- *)
@@ -95,6 +101,47 @@ Proof.
   destruct (bk_op bk =? aml_pOpMethod); cbn [anon map concat app]; rewrite ?app_nil_r; reflexivity.
 Qed.
 
+Definition cst_obj (t : T) (k : N) (d : decl) : Prop :=
+  exists ko, obj t k = Some ko /\ o_opcode ko = d_op d /\ View.kids t ko = [] /\ o_value ko = const_val (d_op d) (d_v d).
+
+Lemma const_ops' d : is_constb (d_op d) = true ->
+  (d_op d =? aml_pOpIntScopeBlock) = false /\ (d_op d =? aml_pOpIntResolvedNamePath) = false /\ (d_op d =? aml_pOpIntNamePath) = false /\
+  (d_op d =? aml_pOpIntNamePathOrMethodCall) = false /\ (d_op d =? aml_pOpIntMethodCall) = false.
+Proof.
+  intros Hc. destruct (is_constb_cases _ Hc) as [E|[E|[E|[E|[E|[E|E]]]]]]; rewrite E; repeat split.
+Qed.
+
+Lemma argF_cst (t : T) tables f known op p' sc : forall ks (ta : list decl) sub args, Forall2 (cst_obj t) ks ta -> forallb cst_okb ta = true ->
+  fold_left (argF t tables f known op p' sc) ks (sub, args) = (sub, args ++ flat_map cst_tokens ta).
+Proof.
+  induction ks as [|k ks IH]; intros ta sub args HF Hok; inversion HF as [|k0 d ks0 ta0 Hk Hr]; subst; cbn [fold_left flat_map]; [rewrite app_nil_r; reflexivity|].
+  cbn [forallb] in Hok. apply andb_prop in Hok. destruct Hok as [Hd Hok]. unfold cst_okb in Hd. apply andb_prop in Hd. destruct Hd as [Hc _].
+  destruct (const_ops' d Hc) as (E0 & E1 & E2 & E3 & E4).
+  destruct Hk as (ko & Hko & Hop & Hkk & Hv).
+  unfold argF at 2. rewrite Hko, Hop, E0.
+  unfold pool_fuel. rewrite (render_const t tables _ known sc k ko Hko Hkk); rewrite ?Hop; try assumption.
+  2:{ rewrite Hv. unfold const_val. destruct (const_bytes (d_op d)); exact I. }
+  rewrite Hv. rewrite (IH ta0 sub _ Hr Hok). rewrite <- app_assoc. reflexivity.
+Qed.
+
+(** ---- a leaf named object ---- *)
+Lemma walkF_leaf (t : T) tables f known p es stmts c co lk pth fxi (l : fxs) csi ta :
+  obj t c = Some co -> o_opcode co = lk_op lk -> View.kids t co = pth :: fxi ++ csi ->
+  Forall2 (fx_obj t) fxi l -> Forall2 (cst_obj t) csi ta -> forallb cst_okb ta = true ->
+  walkF t tables f known p (es, stmts) c = (es ++ [leaf_entry (p ++ [name_num (o_name co)]) lk l ta], stmts).
+Proof.
+  intros Ho Hop Hk HF HC Hok. unfold walkF. rewrite Ho. cbv zeta. rewrite Hop.
+  assert (E1 : (lk_op lk =? aml_pOpIntScopeBlock) && negb (is_zero_scopeblock co) = false) by (destruct lk; reflexivity).
+  assert (E2 : lk_op lk =? aml_pOpIntNamedField = false) by (destruct lk; reflexivity).
+  assert (E3 : is_declop (lk_op lk) = true) by (destruct lk; reflexivity).
+  rewrite E1, E2, E3. rewrite Hk.
+  set (p' := p ++ [name_num (o_name co)]).
+  change (fold_left _ (fxi ++ csi) ([], [])) with
+    (fold_left (argF t tables f known (lk_op lk) p' (if lk_op lk =? aml_pOpMethod then p' else p)) (fxi ++ csi) ([], [])).
+  rewrite fold_left_app, (argF_fx t tables f known _ p' _ fxi l [] [] HF). cbn [app].
+  rewrite (argF_cst t tables f known _ p' _ csi ta [] _ HC Hok). unfold leaf_entry. cbn [app]. reflexivity.
+Qed.
+
 Section ViewF1.
 Variable t : T.
 Variable g : ghost.
@@ -112,7 +159,7 @@ Proof.
   rewrite (walkF_empty_scope t tables f known p acc c co Ho Hop Hnm Hk). apply IH. intros c' Hc'. apply Hall. right. exact Hc'.
 Qed.
 
-Lemma fx_view : forall (l : fxs) b off, Forall (Desc g pl) (leaf_row b (fx_pays 1 off l)) -> Forall2 (fx_obj t) (seqN b (length l)) l.
+Lemma fx_view vh : forall (l : fxs) b off, Forall (Desc g pl) (leaf_row b (fx_pays vh off l)) -> Forall2 (fx_obj t) (seqN b (length l)) l.
 Proof.
   induction l as [|[w v] r IH]; intros b off HD; [constructor|]. cbn [fx_pays leaf_row length seqN] in HD |- *.
   constructor; [|apply (IH _ _ (Forall_inv_tail HD))].
@@ -121,9 +168,22 @@ Proof.
   exists ko. split; [exact Hko|]. split; [rewrite (pay_op _ _ Epko); reflexivity|]. split; [rewrite Hkko; exact Kb|rewrite (pay_val _ _ Epko); reflexivity].
 Qed.
 
-Definition VSpec (its : list item) : Prop := forall f known p es st b off,
-  Forall (Desc g pl) (lay2 1 0 b off its) -> forallb item_okb its = true -> (iszs its < f)%nat ->
-  fold_left (walkF t tables f known p) (map ridx (lay2 1 0 b off its)) (es, st) = (es ++ ventries p its, st).
+Lemma cst_view vh : forall (ta : list decl) b off, forallb cst_okb ta = true -> Forall (Desc g pl) (leaf_row b (cst_pays vh off ta)) ->
+  Forall2 (cst_obj t) (seqN b (length ta)) ta.
+Proof.
+  induction ta as [|d r IH]; intros b off Hok HD; [constructor|]. cbn [cst_pays leaf_row length seqN] in HD |- *.
+  cbn [forallb] in Hok. apply andb_prop in Hok. destruct Hok as [Hd Hok]. unfold cst_okb in Hd. apply andb_prop in Hd. destruct Hd as [Hc _].
+  constructor; [|apply (IH _ _ Hok (Forall_inv_tail HD))].
+  destruct (Desc_inv _ _ _ _ _ (Forall_inv HD)) as (Pb & Kb & _). cbn [map] in Kb.
+  assert (Hlc : y_op (cst_pay vh off d) <> opFreed).
+  { cbn [cst_pay y_op]. destruct (is_constb_cases _ Hc) as [E|[E|[E|[E|[E|[E|E]]]]]]; rewrite E; discriminate. }
+  destruct (view_obj t g pl b _ H Pb Hlc) as (ko & Hko & Epko & Hkko).
+  exists ko. split; [exact Hko|]. split; [rewrite (pay_op _ _ Epko); reflexivity|]. split; [rewrite Hkko; exact Kb|rewrite (pay_val _ _ Epko); reflexivity].
+Qed.
+
+Definition VSpec (its : list item) : Prop := forall vh vtbl f known p es st b off,
+  Forall (Desc g pl) (lay2 vh vtbl b off its) -> forallb item_okb its = true -> (iszs its < f)%nat ->
+  fold_left (walkF t tables f known p) (map ridx (lay2 vh vtbl b off its)) (es, st) = (es ++ ventries p its, st).
 
 Lemma const_ops d : is_constb (d_op d) = true ->
   (d_op d =? aml_pOpIntScopeBlock) = false /\ (d_op d =? aml_pOpIntResolvedNamePath) = false /\ (d_op d =? aml_pOpIntNamePath) = false /\
@@ -134,7 +194,7 @@ Qed.
 
 Lemma vspec_all : forall its, VSpec its.
 Proof.
-  induction its as [|d rest IH|bk k seg fa body rest IHb IH] using items_ind; intros f known p es st b off HD Hok Hf.
+  induction its as [|d rest IH|bk k seg fa body rest IHb IH|lk seg fa ta rest IH] using items_ind; intros vh vtbl f known p es st b off HD Hok Hf.
   - cbn [lay2 map fold_left ventries flat_map]. rewrite app_nil_r. reflexivity.
   - apply forallb_item_cons in Hok. destruct Hok as [Hd Hok]. cbn [item_okb] in Hd. apply andb_prop in Hd. destruct Hd as [Hd Hseg].
     apply N.ltb_lt in Hseg. unfold decl_okb in Hd. apply andb_prop in Hd. destruct Hd as [Hd _]. apply andb_prop in Hd. destruct Hd as [_ Hc].
@@ -151,7 +211,7 @@ Proof.
     rewrite (walkF_name t tables f known p es st b co (b + 1) (b + 2) ko Hco ltac:(rewrite (pay_op _ _ Epco); reflexivity) Hkco Hko Hkko);
       try (rewrite Hopk; assumption).
     2:{ rewrite Hvk. unfold const_val. destruct (const_bytes (d_op d)); exact I. }
-    rewrite iszs_cons in Hf. rewrite (IH f known p _ st _ _ HDrest Hok ltac:(lia)).
+    rewrite iszs_cons in Hf. rewrite (IH vh vtbl f known p _ st _ _ HDrest Hok ltac:(lia)).
     cbn [ventries flat_map ventry]. rewrite <- app_assoc. cbn [app]. f_equal. f_equal. f_equal.
     unfold name_entry. rewrite Hopk, Hvk, (pay_name _ _ Epco). cbn [nam_pay y_name]. rewrite (name_num_seg _ Hseg). reflexivity.
   - apply forallb_item_cons in Hok. destruct Hok as [Hd Hok]. cbn [item_okb] in Hd. apply andb_prop in Hd. destruct Hd as [Hx Hbody].
@@ -165,18 +225,39 @@ Proof.
     apply Forall_app in HDk. destruct HDk as [HDrow HDsb]. pose proof (Forall_inv HDsb) as DS.
     destruct (Desc_inv _ _ _ _ _ DS) as (PS & KS & HDbody).
     unfold hd_pays in HDrow. cbn [leaf_row] in HDrow. fold l in HDrow.
-    pose proof (fx_view l _ _ (Forall_inv_tail HDrow)) as HF. fold nf in HF.
+    pose proof (fx_view vh l _ _ (Forall_inv_tail HDrow)) as HF. fold nf in HF.
     destruct (view_obj t g pl b _ H PD ltac:(destruct bk; discriminate)) as (co & Hco & Epco & Hkco).
     destruct (view_obj t g pl (b + 2 + N.of_nat nf) _ H PS ltac:(discriminate)) as (ko & Hko & Epko & Hkko).
     rewrite KD in Hkco. rewrite KS in Hkko.
     rewrite iszs_cons, isz_blk in Hf. fold l nf in Hf. destruct f as [|f']; [lia|].
     assert (Hnm : name_num (o_name co) = seg) by (rewrite (pay_name _ _ Epco); cbn [blk_pay y_name]; apply name_num_seg; exact Hseg).
     assert (Hw : walk t tables (S f') known (b + 2 + N.of_nat nf) (p ++ [name_num (o_name co)]) = (ventries (p ++ [seg]) body, [])).
-    { rewrite walk_S, Hko, Hkko, Hnm. rewrite (IHb f' known (p ++ [seg]) [] [] _ _ HDbody Hbody ltac:(lia)). reflexivity. }
+    { rewrite walk_S, Hko, Hkko, Hnm. rewrite (IHb vh vtbl f' known (p ++ [seg]) [] [] _ _ HDbody Hbody ltac:(lia)). reflexivity. }
     rewrite (walkF_blk t tables (S f') known p es st b co bk (b + 1) (seqN (b + 1 + 1) nf) l (b + 2 + N.of_nat nf) ko _ Hco
                ltac:(rewrite (pay_op _ _ Epco); reflexivity) Hkco HF Hko ltac:(rewrite (pay_op _ _ Epko); reflexivity) Hw).
-    rewrite (IH (S f') known p _ st _ _ HDrest Hok ltac:(lia)).
+    rewrite (IH vh vtbl (S f') known p _ st _ _ HDrest Hok ltac:(lia)).
     cbn [ventries flat_map ventry]. fold (ventries (p ++ [seg]) body). fold l. rewrite Hnm, <- !app_assoc. reflexivity.
+  - apply forallb_item_cons in Hok. destruct Hok as [Hd Hok]. cbn [item_okb] in Hd. apply andb_prop in Hd. destruct Hd as [Hx Hta].
+    apply andb_prop in Hx. destruct Hx as [Hx _]. apply andb_prop in Hx. destruct Hx as [Hx _]. apply andb_prop in Hx. destruct Hx as [Hx _].
+    apply andb_prop in Hx. destruct Hx as [_ Hseg]. apply N.ltb_lt in Hseg.
+    rewrite lay2_cons in HD |- *. rewrite map_app, fold_left_app. apply Forall_app in HD. destruct HD as [HDit HDrest].
+    cbn [lay2_item map ridx fold_left] in HDit |- *.
+    set (l := lfx lk fa) in *. set (nf := length l) in *.
+    pose proof (Forall_inv HDit) as DD. destruct (Desc_inv _ _ _ _ _ DD) as (PD & KD & HDk).
+    rewrite leaf_row_idx, app_length, len_lhd_pays, len_cst_pays in KD. fold l nf in KD.
+    rewrite leaf_row_app, len_lhd_pays in HDk. fold l nf in HDk. apply Forall_app in HDk. destruct HDk as [HDrow HDcs].
+    unfold lhd_pays in HDrow. cbn [leaf_row] in HDrow. fold l in HDrow.
+    pose proof (fx_view vh l _ _ (Forall_inv_tail HDrow)) as HF. fold nf in HF.
+    pose proof (cst_view vh ta _ _ Hta HDcs) as HC.
+    destruct (view_obj t g pl b _ H PD ltac:(destruct lk; discriminate)) as (co & Hco & Epco & Hkco).
+    rewrite KD in Hkco. change (S nf + length ta)%nat with (S (nf + length ta)) in Hkco. cbn [seqN] in Hkco. rewrite seqN_app in Hkco.
+    replace (b + 1 + 1 + N.of_nat nf) with (b + 1 + N.of_nat (S nf)) in Hkco by lia.
+    assert (Hnm : name_num (o_name co) = seg) by (rewrite (pay_name _ _ Epco); cbn [lf_pay y_name]; apply name_num_seg; exact Hseg).
+    rewrite (walkF_leaf t tables f known p es st b co lk (b + 1) (seqN (b + 1 + 1) nf) l (seqN (b + 1 + N.of_nat (S nf)) (length ta)) ta Hco
+               ltac:(rewrite (pay_op _ _ Epco); reflexivity) Hkco HF HC Hta).
+    rewrite iszs_cons, isz_leaf in Hf.
+    rewrite (IH vh vtbl f known p _ st _ _ HDrest Hok ltac:(lia)).
+    cbn [ventries flat_map ventry]. fold l. rewrite Hnm, <- !app_assoc. reflexivity.
 Qed.
 
 (** ---- the whole view ---- *)
@@ -195,7 +276,7 @@ Proof.
         (destruct (Desc_inv _ _ _ _ _ Dr) as (Pc & Kc & _); destruct (view_obj t g pl _ _ H Pc ltac:(discriminate)) as (co & Hco & Epco & Hkco);
          exists co; split; [exact Hco|]; split; [rewrite (pay_op _ _ Epco); reflexivity|];
          split; [rewrite (pay_name _ _ Epco); reflexivity|]; rewrite Hkco; exact Kc). }
-  rewrite (vspec_all its (S (length (t_pool t))) known [] [] [] _ _ HD2 Hok).
+  rewrite (vspec_all its 1 0 (S (length (t_pool t))) known [] [] [] _ _ HD2 Hok).
   2:{ rewrite <- (rep_len_pool _ _ _ H). lia. }
   cbn [app anon map]. rewrite app_nil_r. reflexivity.
 Qed.
